@@ -27,7 +27,7 @@ def norm(x):
 
 def diff(spec, real, path=""):
     """Deep compare; real may contain None wildcards. Returns list of human-readable differences."""
-    if real is WILD:
+    if real is WILD or spec is WILD:
         return []
     if isinstance(spec, (list, dict)) and len(spec) == 0 and isinstance(real, (list, dict)) and len(real) == 0:
         return []
@@ -129,15 +129,35 @@ def cover(graph: Graph, adapter_factory, *, seed=0, max_path=80, known=None, bud
     nothing else is left at a state; a mismatch there is a KNOWN finding (the path ends, because the
     code has left the model), a match means the finding is gone."""
     rnd = random.Random(seed)
-    todo = set(graph.pairs())
-    total_pairs = len(todo)
-    is_known = (lambda n, a: known(graph.out[n][a][0]["act"])) if known else (lambda n, a: None)
-    matched = set()
+    todo = {n: set(acts) for n, acts in graph.out.items() if acts}       # node -> untraversed action keys
+    total_pairs = sum(len(v) for v in todo.values())
+    left = total_pairs
+    kn = {}                                                              # (node, akey) -> finding id (lazy)
+
+    def is_known(n, a):
+        if not known:
+            return None
+        if (n, a) not in kn:
+            kn[(n, a)] = known(graph.out[n][a][0]["act"])
+        return kn[(n, a)]
+
+    def mark(n, a):
+        nonlocal left
+        s_ = todo.get(n)
+        if s_ and a in s_:
+            s_.discard(a)
+            left -= 1
+            if not s_:
+                del todo[n]
+            return True
+        return False
+
+    matched = 0
     stats = {"pairs": total_pairs, "edges": graph.nedges, "nodes": len(graph.nodes), "paths": 0, "steps": 0}
     violations, known_hits, known_gone, samples = [], {}, set(), []
     t0 = time.time()
     idle_paths = 0
-    while todo and idle_paths < 2 and len(violations) < stop_after:
+    while left and idle_paths < 2 and len(violations) < stop_after:
         if budget_s and time.time() - t0 > budget_s:
             break
         adapter = adapter_factory()
@@ -145,20 +165,19 @@ def cover(graph: Graph, adapter_factory, *, seed=0, max_path=80, known=None, bud
         stats["paths"] += 1
         try:
             while len(path) < max_path:
-                node = sorted(cands)[0]
-                here = [a for a in graph.out[node] if (node, a) in todo]
+                node = min(cands)
+                here = todo.get(node, ())
                 normal = sorted(a for a in here if not is_known(node, a))
                 if normal:
                     seq = [rnd.choice(normal)]
                 else:
-                    plain = {(n, a) for (n, a) in todo if not is_known(n, a)}
-                    seq = _reach(graph, node, plain)
+                    seq = _reach(graph, node, todo, (lambda n, a: not is_known(n, a)) if known else None)
                     if seq is None:
-                        kn = sorted(a for a in here if is_known(node, a))
-                        if kn:
-                            seq = [kn[0]]
+                        k2 = sorted(a for a in here if is_known(node, a))
+                        if k2:
+                            seq = [k2[0]]
                         else:
-                            seq = _reach(graph, node, todo)
+                            seq = _reach(graph, node, todo, None) if known else None
                             if seq is None:
                                 break
                 stop = False
@@ -171,8 +190,8 @@ def cover(graph: Graph, adapter_factory, *, seed=0, max_path=80, known=None, bud
                         oks = step(adapter, graph, cands, akey)
                     except Mismatch as m:
                         for n in cands:
-                            if (n, akey) in todo:
-                                todo.discard((n, akey)); progressed = True
+                            if mark(n, akey):
+                                progressed = True
                         if fid:
                             known_hits.setdefault(fid, {"path": path + [act0], **m.info})
                         else:
@@ -182,9 +201,9 @@ def cover(graph: Graph, adapter_factory, *, seed=0, max_path=80, known=None, bud
                     if fid:
                         known_gone.add(fid)
                     for n, e in oks:
-                        if (n, akey) in todo:
-                            todo.discard((n, akey)); progressed = True
-                        matched.add((n, akey, e["to"]))
+                        if mark(n, akey):
+                            progressed = True
+                            matched += 1
                     stats["steps"] += 1
                     path.append(oks[0][1]["act"])
                     cands = {e["to"] for _, e in oks}
@@ -195,22 +214,20 @@ def cover(graph: Graph, adapter_factory, *, seed=0, max_path=80, known=None, bud
         idle_paths = 0 if progressed else idle_paths + 1
         if len(samples) < 3 and len(path) > 3:
             samples.append(path[:12])
-    stats["pairs_exercised"] = total_pairs - len(todo)
-    stats["edges_matched"] = len(matched)
-    stats["unreached_pairs"] = len(todo)
+    stats["pairs_exercised"] = total_pairs - left
+    stats["edges_matched"] = matched
+    stats["unreached_pairs"] = left
     return stats, violations, known_hits, known_gone, samples
 
 
-def _reach(graph, node, todo):
-    """Shortest action sequence from node to another state that has an untraversed pair (BFS)."""
-    targets = {n for (n, a) in todo} - {node}
-    if not targets:
-        return None
+def _reach(graph, node, todo, pred=None):
+    """Shortest action sequence from node to another state that has an untraversed pair (BFS).
+    todo: node -> set of untraversed action keys; pred(n, a) filters which pairs count."""
     prev = {node: None}
     dq = deque([node])
     while dq:
         n = dq.popleft()
-        if n in targets and n != node:
+        if n != node and n in todo and (pred is None or any(pred(n, a) for a in todo[n])):
             seq = []
             while prev[n] is not None:
                 p, a = prev[n]
